@@ -116,7 +116,7 @@ def generate(G):
             id = "2x1x2_%s%s" % ("t" if at else "n", "t" if bt else "n")
             mm(id + "_all", 2, 1, 2, at, bt, [1, 2], "thorough")
     # rank-1 forms
-    ob("matmul_vec_2_2x2", "Matmul { at: false, bt: false, c: false }", [L([2], "D2"), L([2, 2], "D2")], "thorough", 12,
+    ob("matmul_vec_2_2x2", "Matmul { at: false, bt: false, c: false }", [L([2], "D2"), L([2, 2], "D2")], "quick", 12,
        skel={"form": "[k] x [k,n]"})
     ob("matmul_dot_3_3", "Matmul { at: false, bt: false, c: false }", [L([3]), L([3])], "thorough", 10, skel={"form": "dot"})
     ob("matmul_2x2_vec2_bt", "Matmul { at: false, bt: true, c: false }", [L([2, 2], "D2"), L([2], "D2")], "thorough", 12,
@@ -137,6 +137,8 @@ def generate(G):
     conv("1x2x3_1x1x2x2_s11", [1, 2, 3], [1, 1, 2, 2], (1, 1), "quick")            # overlapping columns
     conv("1x3x3_1x1x2x2_s11_img", [1, 3, 3], [1, 1, 2, 2], (1, 1), "thorough", tracked=(True, False))
     conv("1x1x3_1x1x1x2_s11", [1, 1, 3], [1, 1, 1, 2], (1, 1), "quick", dom="D4")   # overlapping along columns only
+    # column stride 2 that does not tile the width, two rows of windows, image gradient only
+    conv("1x3x4_1x1x2x1_s12_img", [1, 3, 4], [1, 1, 2, 1], (1, 2), "quick", tracked=(True, False))
     conv("1x3x1_1x1x2x1_s11", [1, 3, 1], [1, 1, 2, 1], (1, 1), "thorough", dom="D4")   # overlapping along rows only
     conv("1x3x4_1x1x2x2_s12", [1, 3, 4], [1, 1, 2, 2], (1, 2), "thorough")         # rows overlap, columns do not
     conv("1x2x4_1x1x2x2_s12", [1, 2, 4], [1, 1, 2, 2], (1, 2), "thorough")         # non-overlapping
